@@ -543,6 +543,17 @@ Step ==
             IN /\ S' = SS /\ UNCHANGED <<cfg, Rq, Cn>>
                /\ viol' = viol \o tv \o (IF diffs = <<>> THEN <<>> ELSE <<V("NONCONF", "upgrade_state_differs", e.sid, [after |-> e.a, cand |-> e.c, fields |-> diffs, exp |-> x, act |-> y])>>)
                     \o (IF y.nswitch > 1 THEN <<V("C08", "upgraded_more_than_once", e.sid, y.nswitch)>> ELSE <<>>)
+       [] e.e = "hctx.expect" ->
+            \* conformance of types.HttpContext to HttpCtx.tla at settled points: done flag, WriteHeader calls that reached the
+            \* ResponseWriter, close events, refused writes
+            LET x == e.exp  y == e.act
+                diffs == (IF x.done # y.done THEN <<"done">> ELSE <<>>) \o (IF x.nwh # y.nwh THEN <<"nwh">> ELSE <<>>)
+                      \o (IF x.nclose # y.nclose THEN <<"nclose">> ELSE <<>>) \o (IF x.refused # y.refused THEN <<"refused">> ELSE <<>>)
+            IN /\ S' = SS /\ UNCHANGED <<cfg, Rq, Cn>>
+               /\ viol' = viol \o tv \o (IF diffs = <<>> THEN <<>> ELSE <<V("NONCONF", "http_context_state_differs", "", [after |-> e.a, fields |-> diffs, exp |-> x, act |-> y])>>)
+                    \o (IF y.nwh > 1 THEN <<V("C11", "second_response_to_one_request", "", [nwh |-> y.nwh])>> ELSE <<>>)
+                    \o (IF y.nwh >= 1 /\ ~y.done THEN <<V("C11", "request_answerable_after_its_response", "", [nwh |-> y.nwh])>> ELSE <<>>)
+                    \o (IF y.nclose > 1 THEN <<V("C11", "request_closed_twice", "", [nclose |-> y.nclose])>> ELSE <<>>)
        [] e.e = "tickwin" ->
             \* the tick of the refreshed timer was held before the timer's mutex when the heartbeat packet was accepted: it is stale
             /\ S' = SS
